@@ -127,7 +127,7 @@ def _path_canaries(u, scratch_root, run_verus_unit):
     res["wall"] = r.get("wall", 0.0)
     if r.get("infra"):
         # the canaries multiply the work per function: a resource limit here is not a statement about the unit
-        res["report"].append(("note", "path-canary run undecided: " + r["infra"][:200]))
+        res["report"].append(dict(item="path-canaries", src="", rewrites=["NOTE: path-canary run undecided: " + r["infra"][:200]]))
         if "resource limit" not in r["infra"]:
             res["infra"] = "path-canary run: " + r["infra"]
         return res
